@@ -10,7 +10,7 @@ class WC11(WeaverUnit):
 
 class C11(Property):
     id = "C11"
-    gen_targets = ["Funfit", "Kernels", "WeaverGlue"]
+    gen_targets = ["Funfit", "Kernels", "WeaverGlue", "ProcessGlue"]
 
     def units(self, tier):
         return [TruncateUnit(), WC11(("C11",), ops=['truncate_by_value','truncate_by_value','truncate_by_index','shift_x','scale_x','recreate','append'], max_len=6, queries=True)]
